@@ -17,6 +17,7 @@ func init() {
 }
 
 func runC13(w *World, r *Report) {
+	defer c13StopReleases(w, r, "C13-R7")
 	defer catalogStatePairs(w, r, "C13-R6")
 	r.Rule("C13-R1", "subscribe and watch before list, release after", "StartRead: Subscribe{Collection,Partition}Event and Watch{Collection,Partition} dominate GetAllCollection; StartWatch post-dominates GetAllPartition. Watch*: etcd Watch opened outside the goroutine; the event loop is entered only through the start-watch case", 8)
 	r.Rule("C13-R2", "consumer protocol", "in both event consumers the branch on which shouldReadFunc reports false returns false", 2)
@@ -581,4 +582,37 @@ func c13R5(w *World, r *Report) {
 		r.Check(!bad, "C13-R5", cons, pos, fmt.Sprintf("not bound to one task (once-guarded+ctx-bound=%v, reader passes its ctx=%v, server passes a per-task ctx=%v)", shared[name], passes, perTask),
 			"the catalog watch is opened once per target (sync.Once) but runs under the context of the task that happened to start first; when that task is paused or deleted its quit function cancels the context, the watch goroutine exits, and collections/partitions created later are never noticed by the other tasks of the target")
 	}
+}
+
+// c13StopReleases (C13-R7, shared with C11): stopping a collection always gives its registration back. A collection that
+// joined another collection's channel handler has no handler of its own to stop, but it is registered in
+// replicateCollections all the same; if a return can bypass the release the next start is refused as "already replicated".
+func c13StopReleases(w *World, r *Report, rule string) {
+	r.Rule(rule, "stopping a collection always releases its registration", "every return of replicateChannelManager.StopReadCollection is dominated by the lookup of replicateCollections[info.ID] (the table the dedup of StartReadCollection consults): no early return skips the release", 1)
+	fn := w.Func(pkgReader, "replicateChannelManager", "StopReadCollection")
+	if fn == nil {
+		r.Undecided(rule, "StopReadCollection", 0, "anchor not found")
+		return
+	}
+	var lks []ssa.Instruction
+	eachInstr(fn, func(in ssa.Instruction) {
+		if lk, ok := in.(*ssa.Lookup); ok && strings.HasSuffix(strings.TrimSuffix(w.accessPath(lk.X), "[]"), ".replicateCollections") {
+			lks = append(lks, lk)
+		}
+	})
+	n := 0
+	eachInstr(fn, func(in ssa.Instruction) {
+		ret, ok := in.(*ssa.Return)
+		if !ok || ret.Block().Comment == "recover" {
+			return
+		}
+		n++
+		dom := false
+		for _, lk := range lks {
+			if instrDominates(lk, ret) {
+				dom = true
+			}
+		}
+		r.Check(dom, rule, fmt.Sprintf("(*replicateChannelManager).StopReadCollection | return #%d follows the release", n), ret.Pos(), "replicateCollections is consulted on every path", "this return is reached without looking the collection up in replicateCollections: its registration (and its partitions') stays behind, so after pause and resume the collection is refused as already replicated and never restarted")
+	})
 }
